@@ -187,8 +187,8 @@ class Policy:
         if new_rule != old_rule and new_rule in ast.policy:
             return False
 
-        if "p_priority" in ast.tokens:
-            priority_index = ast.tokens.index("p_priority")
+        if f"{ptype}_priority" in ast.tokens:
+            priority_index = ast.tokens.index(f"{ptype}_priority")
             if old_rule[priority_index] == new_rule[priority_index]:
                 ast.policy[rule_index] = new_rule
             else:
@@ -217,8 +217,8 @@ class Policy:
             else:
                 return False
 
-        if "p_priority" in ast.tokens:
-            priority_index = ast.tokens.index("p_priority")
+        if f"{ptype}_priority" in ast.tokens:
+            priority_index = ast.tokens.index(f"{ptype}_priority")
             for old_rule, new_rule in zip(old_rules, new_rules):
                 if old_rule[priority_index] != new_rule[priority_index]:
                     raise Exception("New rule should have the same priority with old rule.")
